@@ -243,9 +243,6 @@ pub fn core_builder_reuse(p: Proto) -> Vec<Obs> {
             out.push(Obs { dim, what: format!("{}: token presented with {}", what, with), expect_ok: expect, got_ok: ok, got: o.short(), case: case.clone() });
         }
     }
-    if p.is_local() && toks.len() == 2 && toks[0].ok().is_some() && toks[0].ok() != toks[1].ok() {
-        out.push(Obs { dim: Dim::RoundTrip, what: "core layer: the second token from one reused Paseto builder (same key, nonce, message, footer, assertion) equals the first".into(), expect_ok: true, got_ok: false, got: "tokens differ".into(), case: json!({"kind": "core-builder-reuse", "proto": p, "issue_no": 2}) });
-    }
     out
 }
 
